@@ -12,6 +12,7 @@ import (
 	"sync"
 	"sync/atomic"
 	"time"
+	"unicode"
 
 	"context"
 
@@ -74,6 +75,7 @@ type truth struct {
 	Status       int       `json:"http_status,omitempty"`
 	CutShort     bool      `json:"response_write_cut_short,omitempty"` // the ResponseWriter accepted only Recv bytes, then failed
 	CutLimit     int       `json:"cut_limit,omitempty"`
+	OddID        bool      `json:"odd_request_id,omitempty"`
 	records      []map[string]any
 }
 
@@ -139,7 +141,8 @@ func (b *traceBook) valid() (string, string) {
 	return t, s
 }
 
-var traceKinds = []string{"none", "valid", "dashed", "upper", "half-trace", "half-span", "short", "long", "nonhex", "panic", "mixed"}
+var traceKinds = []string{"none", "valid", "dashed", "upper", "half-trace", "half-span", "short", "long", "nonhex", "panic",
+	"empty-both", "space-padded", "newline-suffixed", "fullwidth-digits", "0x-prefixed", "mixed"}
 
 func (b *traceBook) provider(kind string) vgirpc.TraceContextFunc {
 	one := func(k string) (string, string) {
@@ -163,6 +166,16 @@ func (b *traceBook) provider(kind string) vgirpc.TraceContextFunc {
 			return t, "g" + s[1:]
 		case "panic":
 			panic("scripted trace provider panic")
+		case "empty-both":
+			return "", ""
+		case "space-padded":
+			return " " + t[1:], s[:15] + " "
+		case "newline-suffixed":
+			return t + "\n", s + "\n"
+		case "fullwidth-digits":
+			return "\uff10\uff11" + t[6:], s // 32 bytes, not 32 hex characters
+		case "0x-prefixed":
+			return "0x" + t[2:], "0x" + s[2:]
 		}
 		return "", ""
 	}
@@ -259,6 +272,18 @@ func genClaims(rng *rand.Rand, tag string) map[string]any {
 		k := sensKeys[rng.IntN(len(sensKeys))]
 		c[k] = val(k)
 	}
+	// keys outside the fixed lists: a policy fragment in random case inside random surroundings
+	for i, n := 0, rng.IntN(3); i < n; i++ {
+		frag := []rune(sensitiveFragments[rng.IntN(len(sensitiveFragments))])
+		for j := range frag {
+			if rng.IntN(2) == 0 {
+				frag[j] = unicode.ToUpper(frag[j])
+			}
+		}
+		around := []string{"", "x", "_", "-", ".", " ", "usr:", "https://ns.example/", "ä", "日本", "\t", "\"", "9"}
+		k := around[rng.IntN(len(around))] + string(frag) + around[rng.IntN(len(around))]
+		c[k] = val("gen")
+	}
 	if rng.IntN(5) == 0 {
 		c["boom"] = "raw-" + tag + "-boom-value"
 	}
@@ -274,7 +299,7 @@ func genAuth(rng *rand.Rand, tag string) *authSpec {
 	case 2:
 		return &authSpec{Principal: "", Domain: "", Authenticated: false, Claims: genClaims(rng, tag)}
 	}
-	return &authSpec{Principal: []string{"alice", "bob@example.org", "üser", "svc/acct"}[rng.IntN(4)] + "-" + tag,
+	return &authSpec{Principal: []string{"alice", "bob@example.org", "üser", "svc/acct", "quo\"te\\", "new\nline\ttab", "\U0001F600 日本"}[rng.IntN(7)] + "-" + tag,
 		Domain: []string{"jwt", "bearer", "mtls"}[rng.IntN(3)], Authenticated: true, Claims: genClaims(rng, tag)}
 }
 
@@ -329,6 +354,20 @@ var httpClasses = []string{"unary:value", "unary:void", "unary:error", "unary:pa
 func (w *world) id() string {
 	w.nreq++
 	return fmt.Sprintf("c38-k%d-r%d", w.cfg.Index, w.nreq)
+}
+
+// oddIDs are request-id shapes a client may put in the request batch (any
+// string is accepted there): they must come back verbatim in a one-line record.
+var oddIDs = []string{"with \"quotes\" and \\ backslash", "line\nbreak\r\nand\ttab", "nul\x00and\x1fcontrol", "ünïcödé 日本語 \U0001F680", "{\"json\":[1,2]}",
+	" leading and trailing ", "</script><!--", "\u2028line-sep\u2029", strings.Repeat("long-", 80)}
+
+// batchID returns the id to put in the request batch: usually the plain one,
+// sometimes an odd (still unique) one.
+func (w *world) batchID(plain string) string {
+	if w.rng.IntN(5) != 0 {
+		return plain
+	}
+	return plain + "|" + oddIDs[w.rng.IntN(len(oddIDs))]
 }
 
 func (w *world) setDebug(k int) {
@@ -486,8 +525,11 @@ func (w *world) pipeCall(k int, class string) {
 	p := w.genPlan(class, sid)
 	rel, q := p.params()
 	defer rel.Release()
-	q.RequestID = id
-	t := &truth{ID: id, Class: class, Method: p.Method, Debug: w.debug, HasPayload: true, ParamsCanon: gen.CanonValues(q.Params)}
+	q.RequestID = w.batchID(id)
+	t := &truth{ID: q.RequestID, Class: class, Method: p.Method, Debug: w.debug, HasPayload: true, ParamsCanon: gen.CanonValues(q.Params)}
+	if q.RequestID != id {
+		t.OddID = true
+	}
 	mark := int64(w.log.Len())
 	if strings.HasPrefix(class, "unary:") {
 		t.MethodType, t.Phase = "unary", "unary"
@@ -506,7 +548,7 @@ func (w *world) pipeCall(k int, class string) {
 		}
 		_ = obs
 	} else {
-		t.MethodType, t.Phase, t.StreamKey = "stream", "pipe-stream", id
+		t.MethodType, t.Phase, t.StreamKey = "stream", "pipe-stream", t.ID
 		m := svc.Methods[p.Method]
 		sc := wire.StreamCall{Req: q, ExpectHeader: m.Header, Pipelined: w.rng.IntN(4) == 0}
 		if !p.Producer {
@@ -653,7 +695,7 @@ func (w *world) httpCall(k int, class string) {
 	}
 	if strings.HasPrefix(class, "unary:") {
 		id := w.id()
-		q.RequestID = id
+		q.RequestID = w.batchID(id)
 		if w.rng.IntN(6) == 0 {
 			q.RequestID = "" // the transport's id must then describe the call
 		}
@@ -664,6 +706,9 @@ func (w *world) httpCall(k int, class string) {
 			return
 		}
 		t := w.httpTruth(c, class, "unary", o, auth)
+		if q.RequestID != "" && q.RequestID != id {
+			t.ID, t.OddID = q.RequestID, true // the batch's own id wins over X-Request-ID
+		}
 		t.HasPayload, t.ParamsCanon = true, canon
 		t.Dispatched, t.Uploaded = w.dispatched(mark, sid), w.uploaded()-up0
 		switch class {
